@@ -289,13 +289,26 @@ func (w *World) query(extra *Term, wantModel bool) (SatResult, Model) {
 	sort.Strings(vars)
 	var res SatResult
 	var m Model
-	if bits := sliceBits(inSet); w.feasQuery && bits <= 8 {
+	var ckey string
+	if w.feasQuery && wantModel {
+		ckey = qcKey(terms)
+	}
+	hit := false
+	if ckey != "" {
+		res, m, hit = w.qcGet(ckey)
+	}
+	if hit {
+		// identical sliced query answered before on this worker
+	} else if bits := sliceBits(inSet); w.feasQuery && bits <= 8 {
 		// branch-feasibility query over at most 8 free bits: decided by complete enumeration of the
 		// assignments with the term evaluator (exact; assertion queries always go to the SMT solver)
 		res, m = enumerate(terms, inSet)
 		atomic.AddInt64(&gStats.Enumerated, 1)
 	} else {
 		res, m = w.solver.CheckSet(terms, vars, wantModel)
+		if ckey != "" {
+			w.qcPut(ckey, res, m)
+		}
 	}
 	if res == ResSat && wantModel {
 		merged := make(Model, len(r.witness)+len(m))
